@@ -288,8 +288,35 @@ def verb_dtype_cases():
     return out
 
 
+def hidden_cases():
+    """subqueries that carry several hidden columns (de-selected, overwritten, unselected grouping columns) used later: the
+    statement text must not depend on how a set of identities happens to iterate (these cases are built eight times)"""
+    def h1(t):
+        pdt = _pdt()
+        return (t >> pdt.select(t.i) >> pdt.slice_head(5) >> pdt.alias(keep_col_refs=True)
+                >> pdt.filter(t.j > 0, t.f < 10.0, t.s != "x", t.b))
+
+    def h2(t):
+        pdt = _pdt()
+        return (t >> pdt.mutate(i=t.i + 1, j=t.j * 2, f=t.f - 1.0) >> pdt.arrange(t.d, t.s) >> pdt.slice_head(5)
+                >> pdt.alias(keep_col_refs=True) >> pdt.mutate(z=t.i + t.j, w=t.f))
+
+    def h3(t):
+        pdt = _pdt()
+        return (t >> pdt.group_by(t.b, t.s, t.d) >> pdt.select(t.i) >> pdt.mutate(w=t.i.sum()) >> pdt.alias(keep_col_refs=True)
+                >> pdt.filter(pdt.C.w > 0) >> pdt.ungroup())
+
+    def h4(t):
+        pdt = _pdt()
+        u = t >> pdt.alias("u")
+        return (t >> pdt.drop(t.j, t.f, t.g) >> pdt.slice_head(4) >> pdt.alias(keep_col_refs=True)
+                >> pdt.left_join(u >> pdt.drop(u.j, u.f), t.i == u.i) >> pdt.mutate(z=t.j + u.j, w=t.f + t.g))
+
+    return [("H.select_hidden_used", h1), ("H.overwritten_used", h2), ("H.hidden_group_keys", h3), ("H.join_hidden_both", h4)]
+
+
 def all_cases():
-    return literal_cases() + const_param_cases() + window_cases() + slice_cases() + verb_dtype_cases()
+    return literal_cases() + const_param_cases() + window_cases() + slice_cases() + verb_dtype_cases() + hidden_cases()
 
 
 def run_grid() -> list[dict]:
@@ -339,6 +366,11 @@ def run_grid() -> list[dict]:
             try:
                 q1 = str(p >> pdt.build_query())
                 q2 = str(p >> pdt.build_query())
+                if name.startswith("H."):
+                    for _ in range(6):
+                        q3 = str(p >> pdt.build_query())
+                        if q3 != q1:
+                            q2 = q3
             except Exception as e:  # noqa: BLE001
                 rec["outcome"] = "allowed" if type(e).__name__ in ALLOWED_BUILD else "internal"
                 rec["stage"] = "build_query"
